@@ -228,6 +228,12 @@ func c15RunLarge(c *core.Ctx) {
 	if r.Chance(1, 3) {
 		dst.SetMutex()
 	}
+	if r.Chance(1, 3) {
+		dst.SetPushPolicy(func(...any) error { return nil }) // (an accepting policy: the destination's own business)
+	}
+	if r.Chance(1, 3) {
+		dst.SetErr(errPolicyRejects) // an error some earlier call left in the destination: part of "exactly as it was"
+	}
 	desc := map[string]any{"src_len": n, "dst_len": pre, "dst_cap": capacity}
 	s0, _ := Take(src)
 	d0, _ := Take(dst)
